@@ -241,6 +241,13 @@ def values_job(job):
             w.console.state["timer"][1] = rep
             w.console.send_raw(w.console.timer_status_frame())
             w.loop.settle()
+            # between the timer report and the calls the AC reports other things: a temperature drift, and its
+            # "timer set" flag both ways - none of which says anything about the timers themselves
+            st1 = w.console.state["ac"][1]
+            st1["temperature"] = 20.0 + (hash((on, off)) % 7)
+            st1["timer"] = not st1.get("timer", False)
+            w.console.send_raw(w.console.ac_status_frame(only=[1]))
+            w.loop.settle()
             for tt in A.AcTimerType:
                 which = "on" if tt.name == "ON_TIMER" else "off"
                 other = "off" if which == "on" else "on"
